@@ -55,12 +55,18 @@ def region(draw, idx, exact=False):
             x1, x2 = x2, x1
         if o & 2:
             y1, y2 = y2, y1
+        m = draw(st.sampled_from([0, 0, 0, 0, 1, 2, 3]))        # mirrored into a negative quadrant (never over the home corner)
+        if m & 1:
+            x1, x2 = -x1, -x2
+        if m & 2:
+            y1, y2 = -y1, -y2
         return {"type": "rect", "x1": x1, "y1": y1, "x2": x2, "y2": y2, "id": "r%d" % idx}
     a, b = draw(st.integers(8, 50)), draw(st.integers(8, 50))
     k = draw(st.sampled_from([0, 1, 2, 3, 4, 5, 7]))
+    sx, sy = draw(st.sampled_from([(1, 1), (1, 1), (1, 1), (-1, 1), (1, -1), (-1, -1)]))
     if exact:
-        return {"type": "circ", "cx": float(a), "cy": float(b), "r": float(k), "id": "r%d" % idx}
-    return {"type": "circ", "cx": a + 0.1, "cy": b + 0.3, "r": k + 0.2, "id": "r%d" % idx}
+        return {"type": "circ", "cx": float(a) * sx, "cy": float(b) * sy, "r": float(k), "id": "r%d" % idx}
+    return {"type": "circ", "cx": (a + 0.1) * sx, "cy": (b + 0.3) * sy, "r": k + 0.2, "id": "r%d" % idx}
 
 
 # ----------------------------------------------------------------------------- abstract ops
@@ -114,7 +120,7 @@ def op_misc(p):
     if p["rel"]:
         opts += [(2, st.just(("mode",)))]
     if p["home_mid"]:
-        opts.append((1, st.tuples(st.just("home"), st.sampled_from(["", " X", " Y", " Z", " X Y", " X Y Z"]))))
+        opts.append((1, st.tuples(st.just("home"), st.sampled_from(["", " X", " Y", " Z", " X Y", " X Y Z", " X0 Y0", " Z0", " X0"]))))
     if p["ext"]:
         opts += [(p.get("ext_w", 2), st.tuples(st.just("ext"), st.integers(0, len(EXT_POOL) - 1)))]
     if p["at"]:
@@ -304,7 +310,8 @@ class Renderer(object):  # pylint: disable=too-many-instance-attributes
         if kind not in ("grid", "same", "zero") and not regs:
             kind = "grid"
         if kind == "grid":
-            return (i * 0.5, j * 0.5)
+            # the bed extends into negative coordinates too (origin-centred printers)
+            return (i * 0.5 - 12.0, j * 0.5 - 12.0)
         if kind == "same":
             return (self.pr.x, self.pr.y)
         if kind == "zero":
@@ -539,17 +546,17 @@ class Renderer(object):  # pylint: disable=too-many-instance-attributes
     def add_region(self, o):
         _, how, sel = o
         idx = self.nreg
-        if how == "here" and (self.pr.x > 6 or self.pr.y > 6):
+        if how == "here" and (abs(self.pr.x) > 6 or abs(self.pr.y) > 6):
             x, y = self.pr.x, self.pr.y
             if sel % 2:
                 h = (1.25, 2.25, 4.25)[(sel // 2) % 3]
                 reg = {"type": "rect", "x1": x - h, "y1": y - h, "x2": x + h, "y2": y + h, "id": "r%d" % idx}
-                if x - h < 2.5 and y - h < 2.5:
+                if geom.signed_dist(reg, 0.0, 0.0) < 3.0:
                     return
             else:
                 r = (1.3, 2.3, 3.3)[(sel // 2) % 3]
                 reg = {"type": "circ", "cx": x, "cy": y, "r": r, "id": "r%d" % idx}
-                if math.hypot(x, y) - r < 3.5:
+                if geom.signed_dist(reg, 0.0, 0.0) < 3.0:
                     return
         else:
             a, b = 3 + sel % 43, 3 + (sel // 43) % 43
@@ -606,6 +613,11 @@ class Renderer(object):  # pylint: disable=too-many-instance-attributes
             form = "IJ"
             self.excluded_known += 1
         if not pr.abs and not self.p.get("arc_rel"):
+            self.rewrites += 1
+            return
+        if not pr.abs and max(abs(pr.x), abs(pr.y)) > 1e6:
+            # a relative arc is tracked as a sum of per-segment offsets: at astronomically large coordinates (numeric
+            # stress programs) that sum loses millimetres to round-off, which is outside every listed domain (DESIGN 6.3)
             self.rewrites += 1
             return
         a0 = a0i * math.pi / 8
